@@ -76,6 +76,7 @@ Inductive kind : Type := Normal | Admin | Canc.
 Inductive pmode : Type := TxnMode | SessMode.            (* pool_mode of the client's pool *)
 Inductive phase : Type :=
 | Starting                     (* accepted, startup / authentication not finished *)
+| Authed                       (* AuthenticationOk .. ReadyForQuery written, [drain.send(1)] not done yet *)
 | Idle                         (* in the outer loop, waiting for a message or the broadcast *)
 | InTxn                        (* holds a server: transaction in progress (Canc: forwarding) *)
 | SessionHeld                  (* session mode, between transactions, still in the inner loop *)
@@ -127,7 +128,8 @@ Inductive event : Type :=
 | Poll (c : nat)
 | Leave (c : nat) (h : how)
 | DrainDeliver | TimerFire | ExitDeliver
-| SigintQ.                      (* second half of the SIGINT arm: queue the 0, spawn the timer task *)
+| SigintQ                       (* second half of the SIGINT arm: queue the 0, spawn the timer task *)
+| Enter (c : nat).              (* [drain.send(1)] done (non-admin), [handle()] entered *)
 
 (** ** Helpers *)
 
@@ -200,19 +202,22 @@ Definition step (st : state) (e : event) : option state :=
       if negb (main_ok st) then None else
       Some (with_clients st (clients st ++ [mkC k m (admin_only st) Starting false false]))
   | AuthDone i ok =>
+      (* [Client::startup] / [Client::cancel] returned: the client has its answer.  A successful client has
+         been told it is connected (ReadyForQuery) but is NOT yet counted: client.rs:277-281 sends the +1
+         afterwards (Enter). *)
       match nth_error (clients st) i with
       | Some c =>
           match cphase c with
           | Starting =>
               match ckind c with
-              | Canc => if ok then Some (send (put st i (set_counted (set_phase c InTxn) true)) 1)
+              | Canc => if ok then Some (put st i (set_phase c Authed))
                         else Some (put st i (set_phase c Gone))
               | Normal =>
                   if gate c then Some (with_log (put st i (set_phase c Gone)) (ORefused i))
-                  else if ok then Some (with_log (send (put st i (set_counted (set_phase c Idle) true)) 1) (OAdmitted i))
+                  else if ok then Some (with_log (put st i (set_phase c Authed)) (OAdmitted i))
                   else Some (with_log (put st i (set_phase c Gone)) (OAuthFail i))
               | Admin =>
-                  if ok then Some (with_log (put st i (set_phase c Idle)) (OAdmitted i))
+                  if ok then Some (with_log (put st i (set_phase c Authed)) (OAdmitted i))
                   else Some (with_log (put st i (set_phase c Gone)) (OAuthFail i))
               end
           | _ => None
@@ -313,6 +318,20 @@ Definition step (st : state) (e : event) : option state :=
         Some (mkS (admin_only st) (total st) (if tzero st then TDead else TArmed) (exit_q st) (wedged st) (exited st)
                   (queue st ++ [0]) (clients st)
                   (tzero st) (qcap st) (leaked st) (zero_sends st) (log st) false)
+  | Enter i =>
+      match nth_error (clients st) i with
+      | Some c =>
+          match cphase c with
+          | Authed =>
+              match ckind c with
+              | Normal => Some (send (put st i (set_counted (set_phase c Idle) true)) 1)
+              | Admin => Some (put st i (set_phase c Idle))
+              | Canc => Some (send (put st i (set_counted (set_phase c InTxn) true)) 1)
+              end
+          | _ => None
+          end
+      | None => None
+      end
   end end.
 
 Fixpoint run (st : state) (tr : list event) : option state :=
@@ -361,15 +380,23 @@ Fixpoint drain_all (fuel : nat) (st : state) : list event :=
   end.
 
 (** events the system performs by itself from [st], in the eager order: polls, then drain, then exit *)
+Fixpoint authed (cs : list client) (i : nat) : list nat :=
+  match cs with
+  | [] => []
+  | c :: r => (match cphase c with Authed => [i] | _ => [] end) ++ authed r (S i)
+  end.
+
 Definition settle (st : state) : list event :=
   let arm := match step st SigintQ with Some _ => [SigintQ] | None => [] end in
-  let st0 := run_total st arm in
+  let sta := run_total st arm in
+  let ents := map Enter (authed (clients sta) 0) in
+  let st0 := run_total sta ents in
   let polls := map Poll (pollable (clients st0) 0) in
   let st1 := run_total st0 polls in
   let drains := drain_all (S (length (queue st1))) st1 in
   let st2 := run_total st1 drains in
   let ex := match step st2 ExitDeliver with Some _ => [ExitDeliver] | None => [] end in
-  arm ++ polls ++ drains ++ ex.
+  arm ++ ents ++ polls ++ drains ++ ex.
 
 (** the adversarial order for a SIGINT: the clients that see the broadcast are told to go and send
     their -1 BEFORE the arm queues its 0; the drain arm is polled before the exit arm *)
@@ -383,11 +410,24 @@ Definition settle_adv (st : state) : list event :=
   let ex := match step st2 ExitDeliver with Some _ => [ExitDeliver] | None => [] end in
   polls ++ arm ++ drains ++ ex.
 
+(** the order in which a client that has just been answered is NOT yet counted when the main loop goes
+    on: everything except the [Enter]s *)
+Definition settle_late (st : state) : list event :=
+  let arm := match step st SigintQ with Some _ => [SigintQ] | None => [] end in
+  let sta := run_total st arm in
+  let polls := map Poll (pollable (clients sta) 0) in
+  let st1 := run_total sta polls in
+  let drains := drain_all (S (length (queue st1))) st1 in
+  let st2 := run_total st1 drains in
+  let ex := match step st2 ExitDeliver with Some _ => [ExitDeliver] | None => [] end in
+  arm ++ polls ++ drains ++ ex.
+
 (** Script operations of the harness scenarios; each expands to model events. *)
 Inductive sop : Type :=
 | SEv (e : event)              (* the event, then whatever the system does by itself *)
 | SRaw (e : event)             (* the event alone (explicit schedules) *)
 | SAdv (e : event)             (* the event, then the adversarial order of what follows *)
+| SLate (e : event)            (* the event, then what follows except that answered clients are not counted yet *)
 | SWaitTimer.                  (* the scenario waits longer than shutdown_timeout *)
 
 Definition expand (st : state) (o : sop) : list event :=
@@ -395,6 +435,7 @@ Definition expand (st : state) (o : sop) : list event :=
   | SRaw e => [e]
   | SEv e => e :: (match step st e with Some st' => settle st' | None => [] end)
   | SAdv e => e :: (match step st e with Some st' => settle_adv st' | None => [] end)
+  | SLate e => e :: (match step st e with Some st' => settle_late st' | None => [] end)
   | SWaitTimer =>
       match step st TimerFire with
       | Some st' => TimerFire :: settle st'
